@@ -162,7 +162,21 @@ def readDir (layers : List VPath) (p : Str) : M (List Str) := do
           fun n => n ∉ marks.filterMap fun m => stripWo (filenameInternal m.path))
       else pure (if p = [] then entries.filter (fun n => n ≠ woDir) else entries)
 
-/-- `create_dir` -/
+/-- `clear_whiteout` (overlay.rs): as `clearWhiteout`, but a marker that vanished between the
+probe and the removal (a concurrent caller cleared it in the meantime) is not an error -/
+def clearWhiteoutT (layers : List VPath) (p : Str) : M Unit := do
+  let wo ← M.ret (whiteoutPath layers p)
+  let ex ← wo.exists_
+  if ex then fun w =>
+    match wo.removeFile w with
+    | (.err .fileNotFound _, w') => (.ok (), w')
+    | r => r
+  else pure ()
+
+/-- `create_dir`. When the write layer answers `DirectoryExists` although the overlay's own
+`exists` said no (a concurrent `create_dir` won the race for the write layer and may not have
+cleared the whiteout yet), the whiteout is cleared here too before the error is returned (fix of
+finding O11) -/
 def createDir (layers : List VPath) (p : Str) : M Unit := do
   ensureHasParent layers p
   let ex ← exists_ layers p
@@ -172,8 +186,16 @@ def createDir (layers : List VPath) (p : Str) : M Unit := do
     M.failK (if md.ftype = .file then .fileExists else .dirExists)
   else do
     let wp ← M.ret (writePath layers p)
-    wp.createDir
-    clearWhiteout layers p
+    fun w =>
+      match wp.createDir w with
+      | (.ok (), w') => clearWhiteoutT layers p w'
+      | (.err .dirExists pth, w') =>
+        match clearWhiteoutT layers p w' with
+        | (.ok (), w'') => (.err .dirExists pth, w'')
+        | (.err k pth', w'') => (.err k pth', w'')
+        | (.panic, w'') => (.panic, w'')
+      | (.err k pth, w') => (.err k pth, w')
+      | (.panic, w') => (.panic, w')
 
 /-- the type check of `create_file`: refuse a path that is a directory in some layer -/
 def refuseDir (layers : List VPath) (p : Str) : M Unit := do
